@@ -153,7 +153,9 @@ def run_case(case, tier):
         # several models / alternate locations with mutants and missing residues: every conformation is completed
         # with atoms of the others, and each of them gets its own hydrogens
         from .. import multiconf
-        recs, _dm = multiconf.build(rng, base=recs)
+        # (protein atoms only: the later models are jittered copies, and a ligand with distorted geometry is no
+        # test of hydrogen placement)
+        recs, _dm = multiconf.build(rng, base=[r for r in recs if r.raw is not None or r.tag == "ATOM  "])
         classes.append("conformations-that-differ")
     if case["kind"] == "built" and "conformations-that-differ" not in classes and rng.random() < 0.25:
         # a modified residue written as HETATM inside the chain (like MSE): its neighbours are
